@@ -30,7 +30,9 @@ def is_workspace_fn(P, path):
     if not g.startswith(MEMBER_PREFIXES) and not g.startswith("<"):
         return False
     f = P.fn(path) or P.fn(g)
-    return f is not None and f.body is not None and not f.derived and f.kind in ("fn", "assoc_fn") and f.impl_trait is None
+    # methods of a trait the workspace itself defines (a private extension trait on `dyn Api`) are ordinary helpers
+    return f is not None and f.body is not None and not f.derived and f.kind in ("fn", "assoc_fn") and \
+        (f.impl_trait is None or str(f.impl_trait).startswith(MEMBER_PREFIXES))
 
 
 def arm_handlers(P, fn, region):
@@ -56,10 +58,21 @@ def dispatch_arms(P, contract):
 def forwarded_handler(P, fn, region):
     """The workspace function whose result is returned from the arm `region` (the handler of the arm)."""
     hs = []
+    R = None
     for (b, i, cls, v) in common.exit_sites(P, fn):
         if b in region and isinstance(cls, tuple) and cls[0] == "forward" and is_workspace_fn(P, cls[1]):
             f = P.fn(cls[1]) or P.fn(generic_path(cls[1]))
             hs.append((b, f))
+        elif b in region and cls == "ok":
+            # `let res = handler(..)?; Ok(res.add_attribute(..))`: the handler's response returned through builder steps that
+            # add no message — still the arm's handler
+            R = R or common.Roots(P)
+            rs = set(R.roots(v, (("v", "Ok"), ("f", 0))))
+            m = re.match(r"^C:(\S+)@%s:bb(\d+)$" % re.escape(fn.path), list(rs)[0]) if len(rs) == 1 else None
+            if m and is_workspace_fn(P, m.group(1)) and int(m.group(2)) in region:
+                f = P.fn(m.group(1)) or P.fn(generic_path(m.group(1)))
+                if f is not None and (int(m.group(2)), f) not in hs:
+                    hs.append((int(m.group(2)), f))
     return hs
 
 
